@@ -7,7 +7,7 @@ from ..core.report import AnalysisError
 from ..frontend.pyfront import Repo
 
 LEVEL = 'other'
-TECHNIQUE = 'abstract interpretation of the rate formulas into rational functions; conservation laws decided as polynomial identities (Kepler relation substituted); structural masked-division lint; semantic call-site binding by interpreting the callers with stubs'
+TECHNIQUE = 'abstract interpretation of the rate formulas into rational functions; conservation laws decided as polynomial identities (Kepler relation substituted); structural masked-division lint; semantic call-site binding by interpreting the callers (functional and OOP) with stubs; closed loop through the interpreted mode summation (calculate_terms -> collapse_modes -> rate functions)'
 LEVEL_TEXT = ('The conservation laws are identities between the formulas in dynamics/*.py and the potential derivatives; they are extracted by abstract '
               'interpretation and decided exactly for symbolic masses, a, e, n, spin (generic region e>0), plus the e=0 clause as a structural rule on the '
               'mask idiom, sibling agreement, the pointwise-kernel rule and the argument binding at every call site.')
@@ -15,7 +15,7 @@ LEVEL_NOTE = ('Trusted: front-end, interpreter, real algebra (no rounding). The 
               '(non-zero F_lmp(0) only for m = l-2p). Numerical values of heating themselves come from C10/C12 clauses.')
 EXPLANATION = ('R11.1 energy: d/dt(-G m1 m2/2a) + sum C spin dspin/dt + sum host*(n dUdM - spin dUdO) == 0 with n^2 a^3 = G(m1+m2); angular momentum at zero obliquity. '
                'R11.2 sibling agreement (combined vs separate functions; dual with body 2 off == single). R11.3 call-site binding. R11.4 masked division (e=0 gives 0, not NaN). '
-               'R11.6 pointwise kernels.')
+               'R11.6 pointwise kernels. R11.7 closed loop: with the potential derivatives and heating produced by the real mode summation, dE_orb/dt + sum C spin dspin/dt + heating == 0 and (obliquity off) dL_orb/dt + sum C dspin/dt == 0, single and dual dissipation. R11.8 no in-place update of arguments.')
 
 
 def eps_mask(node, pt=None):
